@@ -266,3 +266,28 @@ def validate_traces(traces, module='TraceChunk', shards=None, timeout=1800, extr
         return verdicts, {'states': states, 'wall_s': time.time() - t0, 'jvms': sum(1 for r in results if r)}
     finally:
         shutil.rmtree(tmp, ignore_errors=True)
+
+
+def simulate(module, cfg_text, num, depth, seed, var, timeout=900):
+    """ behaviours generated by TLC's simulation mode: for every behaviour the successive values of state variable
+    `var` (parsed), initial state excluded """
+    tmp = tempfile.mkdtemp(prefix='verif_sim_')
+    try:
+        cfg = os.path.join(tmp, module + '.cfg')
+        with open(cfg, 'w') as f:
+            f.write(cfg_text)
+        cmd = _java(['-XX:+UseSerialGC']) + ['-simulate', f'file={tmp}/tr,num={num}', '-depth', str(depth), '-workers', '1', '-seed', str(seed),
+                                               '-metadir', os.path.join(tmp, 'meta'), '-config', cfg, os.path.join(SPEC, module + '.tla')]
+        p = subprocess.run(cmd, cwd=SPEC, capture_output=True, text=True, timeout=timeout, preexec_fn=_die_with_parent)
+        out = []
+        files = sorted(f for f in os.listdir(tmp) if f.startswith('tr_'))
+        if not files:
+            raise TLCFailure('simulation produced no behaviour:\n' + (p.stdout + p.stderr)[-2000:])
+        pat = re.compile(r'/\\ ' + re.escape(var) + r' = (.*?)(?=\n/\\ |\n\n|\Z)', re.S)
+        for fn in files:
+            txt = open(os.path.join(tmp, fn)).read()
+            vals = [parse_value(re.sub(r'\s+', ' ', m.group(1)).strip()) for m in pat.finditer(txt)]
+            out.append(vals[1:])
+        return out
+    finally:
+        shutil.rmtree(tmp, ignore_errors=True)
